@@ -21,7 +21,7 @@ FNV = {
     "fnv_1a": (14695981039346656037, 1099511628211, 2**64),
     "fnv_1a_32": (0x811C9DC5, 0x01000193, 2**32),
 }
-ALLOWED_CALLS = {"md5", "sha256", "digest", "unpack", "ord", "list", "tuple", "map", "range", "isinstance", "encode", "append", "<slot>", "len", "enumerate", "zip",
+ALLOWED_CALLS = {"md5", "sha256", "digest", "unpack", "ord", "list", "tuple", "map", "range", "isinstance", "encode", "decode", "append", "<slot>", "len", "enumerate", "zip",
                  "fnv_1a", "default_md5", "default_sha256", "wraps", "format", "hex", "int", "bytes", "str", "min", "max", "isascii", "isinstance", "fnv_1a_32"}
 
 
@@ -41,6 +41,23 @@ def resolve_phi(v, atom, truth):
                 return n[2] if truth else n[3]
             if c == ("un", "not", atom):
                 return n[3] if truth else n[2]
+        return None
+    return mapx(v, f)
+
+
+_LATIN1 = {"latin-1", "latin1", "latin_1", "iso-8859-1", "iso8859-1", "l1", "8859", "cp819"}
+
+
+def _latin1_units(v, lid):
+    """ord() of a character of bytes.decode('latin-1') is the byte itself (that codec maps byte b to code point b, one character per byte):
+    ord(elem<b.decode('latin-1')>) -> elem<b>.  Any other codec (the default UTF-8 included) groups or rejects bytes and is left alone"""
+    def f(n):
+        if n[0] == "call" and n[1] == ("g", "ord") and len(n[2]) == 1 and n[2][0][0] == "it" and n[2][0][1] == lid:
+            d = strip_epochs(n[2][0][2])
+            if d[0] == "call" and d[1][0] == "m" and d[1][2] == "decode":
+                enc = d[2][0] if d[2] else dict(d[3]).get("encoding")
+                if enc is not None and enc[0] == "c" and isinstance(enc[1], str) and enc[1].lower() in _LATIN1:
+                    return ("it", lid, d[1][1])
         return None
     return mapx(v, f)
 
@@ -73,7 +90,52 @@ def memo_rule(prog, rep):
                 rep.ok("C18.pure", f"{f.src_name}: memoised, pure, immutable result")
 
 
+class _Fused:
+    """a path seen through map fusion (see _fuse): exit and events are replaced, everything else is the path's own"""
+
+    def __init__(self, p, exit_, events):
+        self._p, self.exit, self.events = p, exit_, events
+
+    def __getattr__(self, k):
+        return getattr(self._p, k)
+
+
+def _fuse(p):
+    """a result written as [E(x) for x in L] over a local list L that the path only ever appends to is the list of E(a) for the appended
+    values a, in order: the appends are shown with E applied and L as the result, so the rules below see one value per append"""
+    import dataclasses
+    if p.exit[0] != "return":
+        return p
+    res = p.exit[1]
+    if not (res[0] == "comp" and res[1] == "list" and len(res[3]) == 1 and not res[3][0][3]):
+        return p
+    lid, L = res[3][0][1], res[3][0][2]
+    if not (L[0] == "newb" and L[1] == "list" and not L[3]):
+        return p
+    var = strip_epochs(("it", lid, L))
+    evs = []
+    for e in p.events:
+        if lid in e.loops:
+            continue  # the comprehension's own bookkeeping
+        if e.kind == "call" and e.d.get("recv") == L:
+            if e.name == "append" and len(e.args) == 1:
+                a = e.args[0]
+                evs.append(dataclasses.replace(e, d=dict(e.d, args=[mapx(res[2], lambda n: a if strip_epochs(n) == var else None)])))
+                continue
+            if e.d.get("mutates"):
+                return p
+        elif e.kind in ("call", "setfield", "setelem") and any(n == L for v in (list(e.d.get("args") or []) + [e.d.get("value")]) if isinstance(v, tuple) for n in walk(v)):
+            return p  # the list is handed elsewhere before it is mapped
+        evs.append(e)
+    return _Fused(p, ("return", L) + tuple(p.exit[2:]), evs)
+
+
 def runs(prog):
+    out = _runs(prog)
+    return {k: (f, [_fuse(p) for p in ps]) for k, (f, ps) in out.items()}
+
+
+def _runs(prog):
     w = _walker(prog)
     out = {}
     for n in ("fnv_1a", "fnv_1a_32", "default_fnv_1a"):
@@ -133,6 +195,8 @@ def kernel_rules(prog, rep, rid_prefix="C18"):
             last = inl[-1].value
             hvv = ("hv", acc, lid)
             elem = [n for n in walk(last) if n[0] == "it" and n[1] == lid]
+            # the unit mixed in is the loop element, or ord() of it when the loop walks text
+            elem = [("call", ("g", "ord"), (x,), ()) if any(n == ("call", ("g", "ord"), (x,), ()) for n in walk(last)) else x for x in elem]
             if not elem:
                 rep.bad(f"{rid_prefix}.fnv-kernel", name, "no byte consumed", "the loop body does not mix in the next byte", inl[-1].where())
                 good = False
@@ -145,12 +209,12 @@ def kernel_rules(prog, rep, rid_prefix="C18"):
                 good = False
                 break
             # bytes: str -> code point per character, bytes -> the byte values
-            el = strip_epochs(rowform(elem[0]))
+            el = _latin1_units(strip_epochs(rowform(elem[0])), lid)
             e_bytes = ("it", lid, key)
             e_str = ("call", ("g", "ord"), (e_bytes,), ())
             isstr = [c for c in p.conds if strip_epochs(c.atom) == isstr_atom]
             cases = [(isstr[0].truth,)] if isstr else [(True,), (False,)]
-            okdom = all(resolve_phi(el, isstr_atom, t) == (e_str if t else e_bytes) for (t,) in cases)
+            okdom = all(_latin1_units(resolve_phi(el, isstr_atom, t), lid) == (e_str if t else e_bytes) for (t,) in cases)
             if not okdom:
                 rep.bad(f"{rid_prefix}.text-keys", name, f"consumes {nshow(el)}", "the key is not consumed as its bytes / code points (each byte of a bytes key, ord() of each character of a str key)", f.where())
                 good = False
@@ -364,8 +428,10 @@ def check(prog, rep, tier):
             break
         init = [e for e in pre if e.name == arg0[1]]
         isstr = [c for c in p.conds if strip_epochs(c.atom) == ("call", ("g", "isinstance"), (key, ("g", "str")), ())]
-        stmt_form = bool(init) and bool(isstr) and ((isstr[0].truth and canon(init[-1].value) == canon(want[3])) or (not isstr[0].truth and canon(init[-1].value) == canon(want[2])))
         isa = ("call", ("g", "isinstance"), (key, ("g", "str")), ())
+        # what the path already knows about the key's type decides a conditional initial value
+        iv = norm(resolve_phi(strip_epochs(init[-1].value), isa, isstr[0].truth)) if init and isstr else None
+        stmt_form = iv is not None and ((isstr[0].truth and canon(iv) == canon(want[3])) or (not isstr[0].truth and canon(iv) == canon(want[2])))
         expr_form = bool(init) and canon(resolve_phi(strip_epochs(init[-1].value), isa, True)) == canon(want[3]) \
             and canon(resolve_phi(strip_epochs(init[-1].value), isa, False)) == canon(want[2])
         if not stmt_form and not expr_form and (not init or canon(init[-1].value) != canon(want)):
@@ -546,7 +612,7 @@ def _mentions_outside_domains(v, depth) -> bool:
         any(_mentions_outside_domains(y, depth) for x in v[1:] if isinstance(x, tuple) and x and not isinstance(x[0], str) for y in x)
 
 
-from ..selftest import Mutant, del_stmt, insert_stmt, replace_expr, replace_stmt
+from ..selftest import Mutant, del_stmt, insert_stmt, replace_expr, replace_stmt, seq
 
 _H = "hashes.py"
 MUTANTS = [
@@ -563,6 +629,25 @@ MUTANTS = [
     Mutant("default_fnv_1a hands one map() iterator to every round", _H,
            replace_stmt(None, "default_fnv_1a", "res = []", "units = map(ord, key) if isinstance(key, str) else key\nreturn [fnv_1a(units, idx) for idx in range(depth)]"), rule="C18.pure"),
     Mutant("default_fnv_1a seeds with idx + depth", _H, replace_expr(None, "default_fnv_1a", "fnv_1a(key, idx)", "fnv_1a(key, idx + depth)"), rule="C18."),
+    Mutant("fnv_1a walks bytes keys as latin-1 text and mixes ord() (same units)", _H, seq(
+        replace_stmt(None, "fnv_1a", "tmp = ", "tmp = key if isinstance(key, str) else key.decode('latin-1')"),
+        replace_stmt(None, "fnv_1a", "hval ^= t_str", "hval ^= ord(t_str)")), expect="silent"),
+    Mutant("fnv_1a walks bytes keys as UTF-8 text and mixes ord()", _H, seq(
+        replace_stmt(None, "fnv_1a", "tmp = ", "tmp = key if isinstance(key, str) else key.decode()"),
+        replace_stmt(None, "fnv_1a", "hval ^= t_str", "hval ^= ord(t_str)")), rule="C18.text-keys"),
+    Mutant("bytes decorator: digests collected first, converted in a second pass (same values)", _H, seq(
+        replace_stmt(None, "hash_with_depth_bytes", "res.append(unpack(", "res.append(tmp[:8])"),
+        replace_stmt(None, "hash_with_depth_bytes", "return res", "return [unpack('Q', w)[0] for w in res]")), expect="silent"),
+    Mutant("bytes decorator: second pass converts 4 bytes as 'I'", _H, seq(
+        replace_stmt(None, "hash_with_depth_bytes", "res.append(unpack(", "res.append(tmp[:4])"),
+        replace_stmt(None, "hash_with_depth_bytes", "return res", "return [unpack('I', w)[0] for w in res]")), rule="C18.range"),
+    Mutant("bytes decorator: second pass skips the first digest", _H, seq(
+        replace_stmt(None, "hash_with_depth_bytes", "res.append(unpack(", "res.append(tmp[:8])"),
+        replace_stmt(None, "hash_with_depth_bytes", "return res", "return [unpack('Q', w)[0] for w in res[1:]]")), rule="C18.exactly-depth"),
+    Mutant("bytes decorator: utf-8 form computed first, None for bytes keys (same meaning)", _H,
+           replace_stmt(None, "hash_with_depth_bytes", "tmp = key if not isinstance(key, str)", "enc = key.encode('utf-8') if isinstance(key, str) else None\ntmp = key if enc is None else enc"), expect="silent"),
+    Mutant("bytes decorator: `utf-8 form or key` (an empty text key stays text)", _H,
+           replace_stmt(None, "hash_with_depth_bytes", "tmp = key if not isinstance(key, str)", "tmp = (key.encode('utf-8') if isinstance(key, str) else None) or key"), rule="C18.text-keys"),
     Mutant("fnv_1a drops the mask in the loop", _H, del_stmt(None, "fnv_1a", "hval &= UINT64_T_MAX"), rule="C18."),
     Mutant("fnv_1a multiplies before xor", _H, replace_stmt(None, "fnv_1a", "hval ^= t_str", "hval *= fnv_64_prime\nhval ^= t_str\nhval //= fnv_64_prime\nhval *= fnv_64_prime"), rule="C18.fnv"),
     Mutant("fnv_1a_32: 31 * seed -> 32 * seed", _H, replace_expr(None, "fnv_1a_32", "31 * seed", "32 * seed"), rule="C18.fnv"),
